@@ -386,6 +386,8 @@ Lemma ok_so_sync_update o : keeps I (so_sync_update cfg sd o).
 Proof.
   unfold so_sync_update, db_update_cols. repeat kstep; try apply ok_write; apply ok_upd; intros i; reflexivity.
 Qed.
+Lemma ok_so_pickle o : keeps I (so_pickle cfg sd o).
+Proof. unfold so_pickle. repeat kstep; apply ok_so_sync_update. Qed.
 Lemma ok_so_reload o : keeps I (so_reload sd o).
 Proof.
   unfold so_reload. repeat kstep; try apply ok_select_init; try apply ok_db_select_one.
@@ -550,6 +552,13 @@ Proof.
     destruct (side_eq_dec (fst x) sd) as [->|Hne]; [apply ok_so_sync_update|].
     apply keeps_of_pres. intros s0 H0. eapply cache_ok_cn; [|exact H0].
     pose proof (frame_so_sync_update cfg (fst x) (snd x) s0) as [Hf _].
+    destruct (fst x), sd; try congruence; exact Hf.
+  - apply K. unfold handle. apply keeps_bind; [apply keeps_bind; [apply keeps_gets|intros s0]|].
+    { destruct (nth h (slots s0) None); [apply keeps_ret|apply keeps_raise]. }
+    intros x. apply keeps_bind; [|intro; apply keeps_ret].
+    destruct (side_eq_dec (fst x) sd) as [->|Hne]; [apply ok_so_pickle|].
+    apply keeps_of_pres. intros s0 H0. eapply cache_ok_cn; [|exact H0].
+    pose proof (frame_so_pickle cfg (fst x) (snd x) s0) as [Hf _].
     destruct (fst x), sd; try congruence; exact Hf.
   - apply K. apply keeps_bind; [|intro; apply keeps_ret]. apply keeps_modify. intros s0. apply cache_ok_slots.
   - inversion Hs; subst. apply K. apply keeps_bind; [apply keeps_gets|intros c].
